@@ -12,7 +12,8 @@ import (
 )
 
 var jsoniterconfiged = jsoniter.Config{
-	EscapeHTML: false,
+	EscapeHTML:  false,
+	SortMapKeys: true, // NOTE the same object is encoded to the same bytes
 }.Froze()
 
 func marshalJSON(v interface{}) ([]byte, error) {
